@@ -1,10 +1,11 @@
-"""Per-property configuration of `check`.
+"""Per-property configuration of `check`: one file per property in checklib/props.d/.
 
-modules : Lean modules holding the property's theorems (every `theorem` in them is an obligation
-          and is axiom-audited);
-engines : correspondence engines of the harness with the number of fresh cases per tier;
-trusted / assumptions / rule : copied into the evidence file.
+PROP: modules (Lean modules holding the property's theorems; every `theorem` in them is an obligation
+and is axiom-audited), engines (correspondence engines of the harness with the number of fresh
+cases per tier; optional tag / cpus), rule / trusted / assumptions (copied into the evidence file).
+META: texts for MANIFEST.json (run `python3 checklib/mkmanifest.py` after editing).
 """
+from pathlib import Path
 
 COMMON_TRUSTED = [
     "amx (syn-based extractor /verif/amx): regenerates lean/AmVerif/Gen/*.lean from /repo's source on every run",
@@ -15,97 +16,9 @@ MODEL_TRUSTED = [
     "modelled, not verified: std HashMap as a keep-first association list; Box address stability (addr is a field of the cell); user loaders as deterministic Prog terms; the harness's MemSource as Model/MemSource.lean",
 ]
 
-PROPS = {
-    "C01": {
-        "modules": ["AmVerif.Props.C01"],
-        "engines": [{"name": "conc", "quick": 12, "thorough": 120},
-                    {"name": "conc", "tag": "conc-3cpus", "quick": 4, "thorough": 40, "cpus": 3},
-                    {"name": "cache", "quick": 60, "thorough": 2000}],
-        "rule": "conc: free-running real threads (search only): `race` = 2-8 threads load / get_or_insert the same absent key, the loader waits until all racers are inside it (forced simultaneous misses), 60-300 rounds per case, every 16 rounds 2000 unrelated insertions then every earlier handle re-read; `probe` = 2-4 readers look up 32 stable entries (directly and through AnyCache) while 2-4 writers insert 30k-200k unrelated entries; also under taskset with 3 CPUs (other shard count). cache: sequential op sequences with handle identity (h<n> = n-th distinct entry) diffed against the model. non-trivial = every case; distinct = distinct (parameters, outcome)",
-        "trusted": COMMON_TRUSTED + MODEL_TRUSTED + ["modelled, not verified: RwLock / RefCell give mutual exclusion for the extent of their guards; the lifetime-extending cast in AssetMap::{get,insert} is sound given C01_no_dangling (Box address stable, no removal through &self)"],
-        "assumptions": ["each of AssetMap::{get,insert,contains_key} is one atomic step (skeleton theorems: whole body inside one lock scope)", "Box<CacheEntry> keeps its address when the HashMap grows"],
-    },
-    "C02": {
-        "modules": ["AmVerif.Props.C02"],
-        "engines": [{"name": "cache", "quick": 150, "thorough": 5000},
-                    {"name": "cache", "tag": "cache-3cpus", "quick": 40, "thorough": 1000, "cpus": 3}],
-        "rule": "random operation sequences (5-60 ops) over load / load_owned / get_cached / get_or_insert / contains / remove / take / clear / directory loads on all front-ends (AssetCache, LocalAssetCache, AnyCache views; with reloader, without_hot_reloading, source without hot-reloading support), ids drawn 80% from a 7-id tree whose script assets load / look up / load_owned each other (nested, failing, panicking loads), a malformed stream (absent ids, empty id, unicode, spaces, 70-char ids, wrong type for id); every 7th case is a seeded slice of the bounded-exhaustive enumeration of all length-3 sequences over 2 ids x 2 types x 8 ops; second run under taskset with 3 CPUs (different shard count); oracle = C02's statement on snapshots of the whole key universe after every op; non-trivial = executed a cache op; distinct = distinct transcripts",
-        "trusted": COMMON_TRUSTED + MODEL_TRUSTED,
-        "assumptions": ["std HashMap behaves as a map (keep-first association list in the model)", "loaders are deterministic"],
-    },
-    "C03": {
-        "modules": ["AmVerif.Props.C03"],
-        "engines": [{"name": "load", "quick": 45, "thorough": 1500}],
-        "rule": "cases 0-11 enumerate, for each of the 12 asset types M<e,d> (6 extension lists incl. [] and [\"\"], default_value present or not), EVERY assignment of {absent, unreadable(kind), undecodable, ok} to the declared extensions, each followed by contains / get_cached / repair / retry; later cases: random blocks with odd ids (root, nested, unicode, spaces), compounds nested 1-4 deep over failing assets (error wrapping), source-read faults at each read index; contents delivered as Buffer / Owned / Slice; non-trivial = at least one load executed; distinct = distinct op/result transcripts",
-        "trusted": COMMON_TRUSTED + MODEL_TRUSTED + ["not modelled: FileContent::with_cow (three variants hand over the same bytes) — exercised by the correspondence only"],
-        "assumptions": ["loaders are deterministic functions of the bytes and extension they are handed"],
-    },
-    "C16": {
-        "modules": ["AmVerif.Props.C16"],
-        "engines": [{"name": "bytes", "quick": 240, "thorough": 6000}],
-        "rule": "case 0: every construction path (From<&[u8]>, from_slice, From<Vec>, from_vec, Box, Cow borrowed/owned, FromIterator with exact and unknown size hint, BytesLoader borrowed/owned) x lengths {0,1,7,8,9,33} x capacity {0 / exact, len+1, len+24}; case 1: every order of dropping three handles living on three threads for 4 paths x 2 capacities; case 2: all 256 single bytes, lead x continuation boundary pairs / triples / quadruples and a table of 34 valid / overlong / surrogate / >U+10FFFF / truncated fragments through from_utf8, StringLoader and the four serde visit_* paths, string comparisons, serde of SharedBytes; later cases cycle: 4 of 6 random forced schedules (clone / clone via From<&SharedBytes> / deref / move / drop / cmp / hash over 1-3 buffers of length 0..8192 (64 KiB, one 1 MiB per 97 cases in thorough), every op executed on the named one of 6 worker threads, ~8% ops on dead or unknown handles), 1 of 6 free-running stress (2-8 threads, search only, outcome compared with the schedule-independent model outcome), 1 of 6 random strings. A case is non-trivial when it builds at least one buffer or string; distinct = distinct op/result transcripts",
-        "trusted": COMMON_TRUSTED + [
-            "modelled, not verified: the weak memory model (C16_orderings_ok checks the extracted orderings against the textbook Release-decrement / Acquire-before-free requirement, it does not prove that requirement sufficient); std::sync::atomic RMWs as single sequentially-consistent steps; usize as unbounded Nat (no count overflow)",
-            "modelled, not verified: core::alloc::Layout::{new, extend, from_size_align} for a 64-bit target (Model/BytesBase.lean), Vec<u8> allocation behaviour (no block when capacity is 0; from_raw_parts/drop frees Layout(capacity,1)), the system allocator; observed on every run through the accounting allocator of the harness",
-            "UTF-8 validity is Lean core's ByteArray.IsValidUTF8 (= being List.utf8Encode of some List Char); Rust's core::str::from_utf8 is tied to it by correspondence only",
-            "amx/src/bytes.rs translation of bytes.rs / string.rs into Gen/Bytes.lean (refuses unknown shapes)",
-        ],
-        "assumptions": [
-            "64-bit target: usize / AtomicUsize / *const u8 are 8 bytes, 8-aligned; isize::MAX = 2^63-1",
-            "a handle is used only by code that owns it or holds a reference to it (Rust's ownership discipline; no unsafe duplication of a SharedBytes), and from_utf8_unchecked callers respect its contract",
-            "the reference count does not overflow usize",
-            "atomics are sequentially consistent per location; Release/Acquire on the count suffices to order the last use before the free (textbook argument, not proved)",
-        ],
-    },
-    "C18": {
-        "modules": ["AmVerif.Props.C18"],
-        "engines": [{"name": "rid", "quick": 60, "thorough": 2000}],
-        "rule": "cases 0-2 enumerate all (stored, offered) pairs over 9 boundary values for ReloadId::update and every AtomicReloadId op, and all length-3 update sequences over 4 values; later cases alternate random op sequences and free-running concurrent update() calls from 2-6 threads (validated against the linearisation model); a case is non-trivial when it executes at least one op; distinct = distinct op/result transcripts",
-        "trusted": COMMON_TRUSTED + [
-            "modelled, not verified: usize as unbounded Nat (no wrap-around), std::sync::atomic primitives as single sequentially-consistent steps",
-        ],
-        "assumptions": [
-            "AtomicUsize::{load,store,swap,fetch_add,fetch_max} are indivisible and sequentially consistent per location",
-            "the reload counter never wraps (2^64 reloads)",
-        ],
-    },
-    "C12": {
-        "modules": ["AmVerif.Props.C12"],
-        "engines": [{"name": "watch", "quick": 120, "thorough": 1500}],
-        "rule": "cases 0-5: one per notification kind (create, modify, rename, delete, any, access), every valid entry up to depth 3 (root, dir, file with / without extension, non-ASCII) spelled plainly and with three `.` / `zz/..` detour patterns; case 6: three roots (disjoint, nested, dotted name) x all kinds x depth<=2; case 7: raw id_of_path / events over 12 not-expressible names (dotted, hidden, non-UTF-8, `..`) as inner and last component, paths at / above / beside the root, relative and literal roots; case 8: path_of over valid and odd ids and back; case 9: disconnected channel; later cases random mixes (60% scenarios, raw events, raw ids, path_of, Err events, receiver drop); thorough: every 8th case is a real create/modify/rename/delete history under the real FsWatcherBuilder with sentinel barriers. A case is non-trivial when it ran at least one id_of_path / event / path_of; distinct = distinct op transcripts",
-        "trusted": COMMON_TRUSTED + [
-            "modelled, not verified: std::path::Path::components() (the harness tokenises every path with it; parent / strip_prefix / file_name / file_stem / extension / == are re-implemented on component lists in the model), notify (event delivery; events are synthesised except in the real-watcher cases), the OS file system (is_dir is a parameter of the model, read from the real file system by the harness when the event is handled), crossbeam channel (connected / disconnected)",
-        ],
-        "assumptions": [
-            "std::path parses a path into the component list the harness reports; Normal components are never empty, `.` or `..`",
-            "ids and extensions contain no path separator or NUL (path_of_entry is not modelled otherwise)",
-            "inotify delivers events in the order the operations happened (sentinel technique, real-watcher cases only)",
-        ],
-    },
-    "C04": {
-        "modules": ["AmVerif.Props.C04"],
-        "engines": [{"name": "src", "quick": 360, "thorough": 4000}],
-        "rule": "cases 0-199 are the bounded-exhaustive slice: the 20 closed subsets of {a.x, a, d/, d/b.x, d/e/} (empty tree included) x {FileSystem, Embedded, (Zip, Tar) x (every directory has a member, none has) x (directories before / after their content)}, each probed on every node plus a fixed list of absent / wrong-kind ids; later cases: random trees (depth <= 4, unicode / spaces / empty extension / one stem with several extensions / file and directory sharing an id / 200-byte names) through one source kind each (rotating), archive members in sorted / reversed / files-first / shuffled order, all / none / some directory members, optional ./ prefix, stored or deflated, in memory or file backed, GNU long names, 1/8 with malformed members (.., absolute, dotted directory, duplicates, hidden, trailing dot); probes: read / read_dir / exists of every node, absent ids (wrong extension, directory as file, file as directory, below a file, empty components), re-read of every listed entry, 1/6 with 4 (thorough 8) concurrent readers; a case is non-trivial when at least one probe ran; distinct = distinct op transcripts",
-        "trusted": COMMON_TRUSTED + [
-            "modelled, not verified: HashMap as a partial function, Vec as a list, Path::components / file_stem / extension (std) as splitSlash / splitExt, the zip and tar container decoders (the model starts at the member list: path, kind, bytes), the OS file system as a map from paths to file / directory nodes with ENOTDIR when a path goes through a file, IdBuilder as idPush / idPop",
-            "the embed! macro's directory walk is modelled by its output tables only (RawEmbedded is built from the tree at run time by the harness)",
-        ],
-        "assumptions": [
-            "tree names are valid: non-empty, no '.', no '/', no NUL; extensions contain no '.'; an extension-less file and a directory do not share a name",
-            "probe ids for the oracle are well formed (no empty component); ids with empty components are compared against the model only",
-            "no sibling <root>.<ext> of the FileSystem root exists (read(\"\", ext) leaves the root)",
-        ],
-    },
-    "C11": {
-        "modules": ["AmVerif.Props.C11"],
-        "engines": [{"name": "dir", "quick": 300, "thorough": 3000}],
-        "rule": "cases 0-79: the 20 small trees of C04 x the four source kinds (archives with and without directory members), 10 loads each over 5 extension lists; later cases: random trees as in C04 through one source kind each, 1/4 with one or two unreadable directories (read_dir fails with PermissionDenied), 6-16 ops drawn from load_dir / load_rec_dir (plain and Arc<T>) / iter / iter_cached after loading a random asset, over 7 asset types with extension lists [], [\"\"], [x], [a,b], [a,b,c], [x,\"\"], [b,a,x], on random directories, the root, missing ids and file ids; a case is non-trivial when at least one load ran; distinct = distinct op transcripts",
-        "trusted": COMMON_TRUSTED + [
-            "modelled, not verified: sort_unstable + dedup as insertion into a strictly sorted list, the asset cache as 'load succeeds iff some extension can be read' (loader = identity on bytes), the source views of C04",
-        ],
-        "assumptions": [
-            "read_dir is deterministic for the lifetime of the cache (Directory and RecursiveDirectory read the same listing)",
-            "the directory graph is finite and acyclic (recLoad is fuelled; the driver uses fuel 64)",
-        ],
-    },
-}
+PROPS, META = {}, {}
+for _f in sorted((Path(__file__).parent / "props.d").glob("C*.py")):
+    _ns = {"COMMON_TRUSTED": COMMON_TRUSTED, "MODEL_TRUSTED": MODEL_TRUSTED}
+    exec(compile(_f.read_text(), str(_f), "exec"), _ns)
+    PROPS[_f.stem] = _ns["PROP"]
+    META[_f.stem] = _ns["META"]
